@@ -281,6 +281,11 @@ def combine1fiber(inloglam, objflux, newloglam, objivar=None, verbose=False,
         if saved_objivar is not None:
             objivar = saved_objivar * (objivar > 0)
         #
+        # Without input inverse variance every pixel has unit weight.
+        #
+        if objivar is None:
+            objivar = np.ones(inloglam.shape, dtype=inloglam.dtype)
+        #
         # Combine inverse variance and pixel masks.
         #
         # Start with all bits set in andmask
